@@ -30,6 +30,8 @@ import JubakoModel.Generated.FuncsLookup
 import JubakoModel.Generated.FuncsStats
 import JubakoModel.Generated.FuncsEntry
 import JubakoModel.Generated.FuncsParse
+import JubakoModel.Generated.FuncsOpen
+import JubakoModel.Generated.FuncsRefs
 
 open Jubako
 
@@ -298,3 +300,13 @@ def main : IO Unit := do
   cmp1 "clusterAddContent" caIn
     (fun x => Generated.clusterAddContent (endOffsets (x.1.map (fun n => List.replicate n (7 : UInt8))) 0) 3 x.2)
     (fun x => some (endOffsets ((x.1.map (fun n => List.replicate n (7 : UInt8))) ++ [List.replicate x.2 7]) 0, (3, x.1.length)))
+  -- the pack header: 60-byte blocks with every kind byte class, magic and version variations
+  let hdr (magic : Bytes) (kind maj min : Nat) : Bytes :=
+    magic ++ [UInt8.ofNat kind] ++ [1, 2, 3, 4] ++ [UInt8.ofNat maj, UInt8.ofNat min] ++ (List.range 16).map (fun i => UInt8.ofNat (i + 17)) ++
+      [5] ++ zeros 5 ++ leBytes 123456789 8 ++ leBytes 4321 8 ++ zeros 12
+  let hdrs : List Bytes := [[106, 98, 107], [106, 98, 108], [0, 0, 0]].flatMap fun m => [109, 100, 99, 67, 68, 0, 255].flatMap fun k =>
+    [(0, 2), (0, 1), (1, 2), (0, 3)].map fun v => hdr m k v.1 v.2
+  cmp1 "packHeaderParse" hdrs
+    (fun bs => outcomeText ((Generated.packHeaderParse bs).map' (fun r => (r.1.1.toString, r.1.2.1, r.1.2.2.1, r.1.2.2.2.1, r.1.2.2.2.2.1, r.1.2.2.2.2.2.1, r.1.2.2.2.2.2.2.1, r.1.2.2.2.2.2.2.2))))
+    (fun bs => outcomeText ((PackHeader.decode bs).map' (fun h => (h.kind.toString, h.vendor, h.major, h.minor, h.uuid, h.flags, h.packSize, h.checkInfoPos))))
+  cmp1 "sortShape" [()] (fun _ => Generated.entryStoreSortShape.map reprStr) (fun _ => (finalizeSteps [[], []]).map (fun s => reprStr s.kind))
